@@ -366,7 +366,7 @@ func (ctx *Context) makeDetailStr(details []BufferSpan) string {
 		detailResult = buf.Bytes()
 	}
 
-	detailStr := string(detailResult)
+	detailStr := strings.TrimSpace(string(detailResult))
 	if detailStr == ctx.Ret.ToString() {
 		detailStr = "" // 如果detail和结果值完全一致，那么将其置空
 	}
